@@ -98,7 +98,9 @@ def inst_model(cs):
     hd = "".join("const int h%d = %s + %d; " % (k + 1, "N" if k == 0 else "h%d" % k, k % 2) for k in range(hops))
     top_name = "N" if hops == 0 else "h%d" % hops
     lead = cs.get("lead", 0)
-    ta = {"name": "TA", "params": ("const int[0,1] a0, " if lead else "") + "const int[1,2] N", "locations": [{"id": "id0"}], "init": "id0", "decl": hd + ({"size": "int a[%s];", "upper": "int a[int[0,%s]];", "lower": "int a[int[%s,5]];"}[cs.get("dim", "size")] % top_name if use == "arrsize" else ""),
+    arr = {"size": "int a[%s];", "upper": "int a[int[0,%s]];", "lower": "int a[int[%s,5]];"}[cs.get("dim", "size")] % top_name
+    arr = {"templ": arr, "func": "void fa() { %s }" % arr, "block": "void fa() { int z = 0; { %s } }" % arr}[cs.get("place", "templ")]
+    ta = {"name": "TA", "params": ("const int[0,1] a0, " if lead else "") + "const int[1,2] N", "locations": [{"id": "id0"}], "init": "id0", "decl": hd + (arr if use == "arrsize" else ""),
           "edges": [{"src": "id0", "dst": "id0", "guard": "%s > 0" % top_name}] if use == "guard" else []}
     sysl, top = [], "TA"
     for k in range(cs["passes"]):
@@ -157,7 +159,7 @@ def run(tier):
             raise vf.MachineryError("instantiation model failed: %s" % json.dumps(r)[:800])
         msgs = [e["msg"] for e in r["dump"]["doc"]["errors"]]
         accepted = not msgs
-        key = "inst:%d:%s:%s:hops%d:%s:lead%d" % (cs["passes"], cs["end"], cs["use"], cs.get("hops", 0), cs.get("dim", "size"), cs.get("lead", 0))
+        key = "inst:%d:%s:%s:hops%d:%s:lead%d" % (cs["passes"], cs["end"], cs["use"], cs.get("hops", 0), cs.get("dim", "size"), cs.get("lead", 0)) + (":" + cs["place"] if cs.get("place", "templ") != "templ" else "")
         rep = {"kind": "inst", "case": cs, "model": inst_model(cs), "diagnostics": msgs}
         if not cs["accepted"]:
             nontrivial += 1
